@@ -125,6 +125,7 @@ type Stats struct {
 	TimerFires   int64 // … that fired
 	TimerJumps   int64 // … after the clock jumped to their deadline because no task could run
 	Stalls       int64 // scheduling points that cost simulated time (a stalled process) while timers were armed
+	Abandoned    int64 // tasks of the library still blocked when the run was over
 	Polls        int64 // waits for a channel the simulator does not own (a context's Done channel)
 	FPHits       int64
 	FPPanics     int64
@@ -132,23 +133,25 @@ type Stats struct {
 }
 
 type runtimeState struct {
-	active    bool
-	quiet     int
-	cfg       Config
-	tape      *Tape
-	ntasks    int
-	nuser     int // tasks started by the harness (their slots are never reused)
-	tasks     [MaxTasks]task
-	cur       int
-	back      chan struct{}
-	join      *stdsync.WaitGroup // fresh per Run: a run that ended in a fatal verdict leaves its tasks parked
-	st        Stats
-	verdict   int
-	nprobers  int // tasks blocked with a probe
-	stayRun   int // decisions in a row that kept the current task running
-	idleFires int // timers fired in a row while no task could run
-	pctChange [8]int64
-	npct      int
+	active     bool
+	quiet      int
+	cfg        Config
+	tape       *Tape
+	ntasks     int
+	nuser      int // tasks started by the harness (their slots are never reused)
+	tasks      [MaxTasks]task
+	cur        int
+	back       chan struct{}
+	join       *stdsync.WaitGroup // fresh per Run: a run that ended in a fatal verdict leaves its tasks parked
+	st         Stats
+	verdict    int
+	nprobers   int   // tasks blocked with a probe
+	stayRun    int   // decisions in a row that kept the current task running
+	drainFires int   // timers fired after the harness's tasks had finished (per Run)
+	drainUntil int64 // … and the simulated time up to which they are
+	idleFires  int   // timers fired in a row while no task could run
+	pctChange  [8]int64
+	npct       int
 
 	// failpoints
 	fpYield   [maxSites]bool
@@ -508,6 +511,19 @@ func Block(key *uintptr) {
 	var list [MaxTasks]int
 	n := runnable(&list, me)
 	for n == 0 && R.tasks[me].blocked != nil {
+		if usersDone() {
+			// a task of the library blocks and nothing else is left to run: the near
+			// future happens, then the run is over and this task is abandoned with the rest
+			if drainTimer() && fireNext() {
+				wakeProbers()
+				n = runnable(&list, me)
+				continue
+			}
+			wake := R.tasks[me].wake
+			endRun()
+			raceOff()
+			<-wake // never: the goroutine stays parked, as at process exit
+		}
 		// nobody can run: time passes until the next timer fires
 		if !fireNext() {
 			if R.nprobers > 0 {
@@ -579,6 +595,61 @@ func Unblock(key *uintptr) {
 }
 
 //go:norace
+func usersDone() bool {
+	for i := 0; i < R.nuser; i++ {
+		if !R.tasks[i].done {
+			return false
+		}
+	}
+	return true
+}
+
+// The end of a run. A run is over when the tasks the harness started have finished
+// and no task the library started itself can take a step - as a Go program is over
+// when main returns. Before that, what the library has set in motion for the near
+// future happens: timers due within ten simulated minutes fire (at most 256 of
+// them), so that a delayed effect - a timer that recycles a buffer the caller still
+// holds - shows before the results are looked at again. Tasks of the library that
+// are still blocked then (a janitor waiting for its next tick, a worker waiting for
+// work) are abandoned like goroutines at process exit: not a verdict - none of the
+// properties is about goroutine leaks. A task of the HARNESS that is blocked while
+// nobody can run is a call that never returns: the deadlock verdict.
+const drainHorizon = int64(10 * 60 * 1e9)
+const drainMaxFires = 256
+
+//go:norace
+func drainTimer() bool {
+	if R.drainFires == 0 {
+		R.drainUntil = clockNs + drainHorizon
+	}
+	i := earliest()
+	if i < 0 || R.drainFires >= drainMaxFires || timerList[i].when > R.drainUntil {
+		return false
+	}
+	R.drainFires++
+	return true
+}
+
+// endRun abandons the library's blocked tasks and hands control back to Run. Called
+// by the task that found nothing left to run; me < 0: it has finished itself.
+//
+//go:norace
+func endRun() {
+	for i := R.nuser; i < R.ntasks; i++ {
+		if !R.tasks[i].done {
+			R.tasks[i].done = true
+			R.tasks[i].blocked = nil
+			R.st.Abandoned++
+			R.join.Done()
+		}
+	}
+	R.nprobers = 0
+	raceOff()
+	R.back <- struct{}{}
+	raceOn()
+}
+
+//go:norace
 func taskExit(me int) {
 	R.tasks[me].done = true
 	event(YTaskEnd, 0)
@@ -586,13 +657,7 @@ func taskExit(me int) {
 	var list [MaxTasks]int
 	n := runnable(&list, me)
 	for n == 0 {
-		alive := false
-		for i := 0; i < R.ntasks; i++ {
-			if !R.tasks[i].done {
-				alive = true
-			}
-		}
-		if alive {
+		if !usersDone() {
 			if fireNext() {
 				wakeProbers()
 				n = runnable(&list, me)
@@ -600,9 +665,12 @@ func taskExit(me int) {
 			}
 			fatal(VDeadlock, "remaining tasks are blocked on a primitive nobody will release")
 		}
-		raceOff()
-		R.back <- struct{}{}
-		raceOn()
+		if drainTimer() && fireNext() {
+			wakeProbers()
+			n = runnable(&list, me)
+			continue
+		}
+		endRun()
 		return
 	}
 	nx := pickOther(&list, n)
@@ -661,6 +729,7 @@ func Run(fns []func()) {
 	R.nuser = n
 	R.back = make(chan struct{})
 	R.npct = 0
+	R.drainFires = 0
 	for i := 0; i < n; i++ {
 		R.tasks[i] = task{wake: make(chan struct{}), prio: 0}
 	}
